@@ -283,7 +283,8 @@ class NumpyModel:
                 return None
             if name == "setdefault":
                 if _h(args[0]) not in base:
-                    I.emit("dict-store", (id(base), keyof(args[0])), node)
+                    from .interp import _data_key
+                    I.emit("dict-store", (id(base), keyof(args[0]), "data-keyed" if _data_key(args[0]) else "constant-keyed"), node)
                 return base.setdefault(_h(args[0]), args[1] if len(args) > 1 else None)
             if name == "copy":
                 return dict(base)
